@@ -1386,7 +1386,7 @@ TRUSTED = [
     "Fake_uint128 is extracted as a C struct {high, low}; the native unsigned __int128 of the C front end is the specification (the class's own GUDHI_VERIF)",
 ]
 ASSUMPTIONS = [
-    "NOT decided by contracts: that the streamed intervals equal the Rips barcode (apparent/emergent pairs, clearing, heap columns, hash maps: not extractable) - only the encoding / arithmetic interface and the listed leaves are under contract; the headline clause is covered only by the bounded native stand-in native.ripser_vs_rips, never counted as proved",
+    "NOT decided by contracts: that the streamed intervals equal the Rips barcode.  The pieces of the reduction are under contract one by one (compute_barcodes driver, compute_dim_0_pairs step, assemble_columns_to_reduce, one turn of compute_pairs incl. the elimination factor, init_coboundary_and_get_pivot, add_coboundary, add_simplex_coboundary, the apparent-pair helpers), each with its callees - enumerators, heaps, hash maps - as ghost stubs; their composition into 'the barcode of the Rips filtration' (the persistence algorithm itself: clearing, emergent and apparent pairs are shortcuts that preserve it) is a theorem no function contract here states.  The headline clause is covered only by the bounded native stand-in native.ripser_vs_rips, never counted as proved",
     "Cns_encoding's binomial table and its get_max_vertex wrapper (the binary search get_max is under contract), Full_distance_matrix, Compressed_distance_matrix<UPPER_TRIANGULAR> (forms a pointer before its array: CBMC cannot follow it) and the sparse coboundary enumerator are not under contract",
     "simplices with at most 5 vertices in the Bitfield round-trip units (unwinding bound)",
 ]
